@@ -140,6 +140,10 @@ func (fc *FeatureCollection) UnmarshalJSON(data []byte) error {
 // UnmarshalBSON will unmarshal a BSON document created with bson.Marshal.
 // Extra/foreign members will be put into the `ExtraMembers` attribute.
 func (fc *FeatureCollection) UnmarshalBSON(data []byte) error {
+	if err := validateBSON(data); err != nil {
+		return err
+	}
+
 	tmp := make(map[string]bson.RawValue, 4)
 
 	err := bson.Unmarshal(data, &tmp)
